@@ -120,10 +120,23 @@ func suiteC16(r *Run) {
 		var lv []lvl
 		cur := d
 		useRegistryWrapper := rng.Chance(30)
+		// half of the registry-view cases: two views, the one next to the registry intercepting one kind only, the
+		// one on top of it both kinds (every interceptor calls onward, so each must show up in the log)
+		partialInner := useRegistryWrapper && rng.Chance(50)
+		if partialInner {
+			levels = 2
+		}
 		for i := 0; i < levels; i++ {
 			l := lvl{behs[rng.Intn(4)], behs[rng.Intn(3)]}
 			if rng.Chance(40) {
 				l = lvl{"p", "p"}
+			}
+			if partialInner {
+				if i == 0 {
+					l = lvl{[]string{"p", "r"}[rng.Intn(2)], "p"}
+				} else {
+					l = []lvl{{"p", "-"}, {"-", "p"}, {"r", "-"}}[rng.Intn(3)]
+				}
 			}
 			lv = append(lv, l)
 			next := grpchan.InterceptServer(cur, mkU(sprintf("D%d", i), l.u), mkS(sprintf("D%d", i), l.s))
@@ -133,14 +146,32 @@ func suiteC16(r *Run) {
 			}
 			cur = next
 		}
-		_ = useRegistryWrapper
+		// the same decoration applied through nested registry views instead: WithInterceptor(WithInterceptor(base, D1), D0)
+		// registers InterceptServer(InterceptServer(d, D0), D1) at the base
+		viaViews := useRegistryWrapper && levels > 0
+		register := func(base grpchan.ServiceRegistry) {
+			if !viaViews {
+				base.RegisterService(cur, synthImpl{})
+				return
+			}
+			reg := base
+			for i := levels - 1; i >= 0; i-- {
+				reg = grpchan.WithInterceptor(reg, mkU(sprintf("D%d", i), lv[i].u), mkS(sprintf("D%d", i), lv[i].s))
+			}
+			reg.RegisterService(d, synthImpl{})
+		}
+		if viaViews {
+			cap := &captureRegistry{}
+			register(cap)
+			cur = cap.desc
+		}
 		tU, tS := behs[rng.Intn(2)], behs[rng.Intn(2)] // transport level: nil or pass
 		carrier := []string{"direct", "inproc", "http"}[rng.Intn(3)]
 		var lspec []string
 		for _, l := range lv {
 			lspec = append(lspec, l.u+l.s)
 		}
-		caseDesc := map[string]interface{}{"carrier": carrier, "transport": tU + tS, "decor_inner_to_outer": strings.Join(lspec, ","), "unary": nU, "streams": nS}
+		caseDesc := map[string]interface{}{"carrier": carrier, "transport": tU + tS, "decor_inner_to_outer": strings.Join(lspec, ","), "unary": nU, "streams": nS, "decorated_through_nested_WithInterceptor_views": viaViews}
 
 		var inCh *inprocgrpc.Channel
 		var hm *httpMemGeneric
@@ -153,7 +184,7 @@ func suiteC16(r *Run) {
 			if tS != "-" {
 				inCh.WithServerStreamInterceptor(mkS("T", tS))
 			}
-			inCh.RegisterService(cur, synthImpl{})
+			register(inCh)
 		case "http":
 			var opts []httpgrpc.ServerOption
 			if tU != "-" {
@@ -169,7 +200,7 @@ func suiteC16(r *Run) {
 				caseDesc["base_path"] = base
 			}
 			hs := httpgrpc.NewServer(opts...)
-			hs.RegisterService(cur, synthImpl{})
+			register(hs)
 			hm = newHTTPMemGeneric(hs)
 			hm.ch.BaseURL.Path = base
 		}
@@ -321,3 +352,8 @@ func suiteC16(r *Run) {
 		}
 	}
 }
+
+// captureRegistry keeps the description a stack of registry views hands down.
+type captureRegistry struct{ desc *grpc.ServiceDesc }
+
+func (c *captureRegistry) RegisterService(d *grpc.ServiceDesc, srv interface{}) { c.desc = d }
